@@ -46,7 +46,7 @@ def gen(r, tier):
     n = 4000 if tier == "quick" else 80000
     for i in range(n):
         kind = KINDS[i % len(KINDS)]
-        fail = r.chance(1, 12) and kind not in ("frame", "const", "taskbuf", "scanner", "fold", "foldint", "foldstr", "cogroup", "scan")
+        fail = r.chance(1, 12) and kind not in ("frame", "const", "taskbuf", "scanner", "scan")
         head = kind
         nups = 1
         if kind == "head":
